@@ -222,6 +222,15 @@ func runOne(sc *scen, st sched.Strategy, settle bool, hit map[int]bool) result {
 				rec(porcupine.Operation{ClientId: 21, Input: cin{Op: "dl", DL: kind}, Call: t0, Output: cout{}, Return: t1})
 			}
 			switch sc.Deadline {
+			case "zero-past": // cleared, then set to a passed time: a reader that parked before the clear must be released too
+				set("zero")
+				set("past")
+				atomic.StoreInt32(&dlPastDone, 1)
+			case "far-zero-past":
+				set("far")
+				set("zero")
+				set("past")
+				atomic.StoreInt32(&dlPastDone, 1)
 			case "past-past": // a passed deadline set again while the first one is already exceeded
 				set("past")
 				set("past")
@@ -354,7 +363,11 @@ func genScen(rng *rand.Rand) *scen {
 	if rng.Intn(3) == 0 {
 		sc.Short = 1 + rng.Intn(1<<uint(sc.Readers)-1)
 	}
-	switch rng.Intn(10) {
+	switch rng.Intn(12) {
+	case 10:
+		sc.Deadline = "zero-past"
+	case 11:
+		sc.Deadline = "far-zero-past"
 	case 8:
 		sc.Deadline = "past-past"
 	case 9:
@@ -410,7 +423,7 @@ func main() {
 			n++
 		}
 	}
-	r.Rule = "scenarios of 1-3 readers x 1-2 reads (some readers with a 1-byte slice, so that every read of theirs is a short read), 1-2 writers x 1-3 packets, optional Close task, optional SetReadDeadline(past|far|zero|past-then-zero|past-past|far-past-past) task, executed on the real packetio.Buffer under a cooperative scheduler with yield points before every lock/channel/select operation of buffer.go and deadline.go; strategies PCT d=2..4, uniform random, DFS with preemption bound 2 on the smallest scenarios; oracle at quiescent points (parked reader while Count()>0 / after Close / with passed deadline) + linearizability of the completed operations; distinct = distinct schedules (task@point sequences)"
+	r.Rule = "scenarios of 1-3 readers x 1-2 reads (some readers with a 1-byte slice, so that every read of theirs is a short read), 1-2 writers x 1-3 packets, optional Close task, optional SetReadDeadline(past|far|zero|past-then-zero|past-past|far-past-past|zero-past|far-zero-past) task, executed on the real packetio.Buffer under a cooperative scheduler with yield points before every lock/channel/select operation of buffer.go and deadline.go; strategies PCT d=2..4, uniform random, DFS with preemption bound 2 on the smallest scenarios; oracle at quiescent points (parked reader while Count()>0 / after Close / with passed deadline) + linearizability of the completed operations; distinct = distinct schedules (task@point sequences)"
 	r.Assumptions = []string{"interleavings inside the Go runtime (direct hand-off to a parked receiver) are below the yield granularity", "blocked is decided from runtime.Stack goroutine states (select, chan receive, sync.Mutex.Lock, ...), sampled three times", "a task released from a real blocking operation runs freely up to its next yield point"}
 	var total int
 	if *pts != "" {
@@ -500,6 +513,7 @@ func main() {
 		{Readers: 2, Reads: 1, Writers: 2, Packets: 1, Short: 3},
 		{Readers: 2, Reads: 2, Writers: 1, Packets: 2, Short: 1},
 		{Readers: 1, Reads: 1, Writers: 1, Packets: 1, Deadline: "past-past"},
+		{Readers: 2, Reads: 1, Writers: 1, Packets: 1, Deadline: "zero-past"},
 	}
 	dsc := shapes[*shard%len(shapes)]
 	dsc.Strategy = "dfs"
